@@ -132,10 +132,11 @@ RefIntegral(p, mode) ==
              tie |-> (k % ONE = ONE \div 2), ovf |-> FALSE]
 
 RefCmp(op, p, r) ==
-    IF RNaN(p) \/ RNaN(r) THEN op = "ne"
+    IF RNaN(p) \/ RNaN(r) THEN op \in {"ne", "not_lt", "not_le", "not_gt", "not_ge"}
     ELSE LET a == Val(p)  b == Val(r) IN
          CASE op = "eq" -> a = b  [] op = "ne" -> a # b  [] op = "lt" -> a < b
            [] op = "le" -> a <= b [] op = "gt" -> a > b  [] op = "ge" -> a >= b
+           [] op = "not_lt" -> a >= b  [] op = "not_le" -> a > b  [] op = "not_gt" -> a <= b  [] op = "not_ge" -> a < b
 
 RefSmallNat(n) == IF n = 0 THEN Exact(0) ELSE Nearest(0, [n |-> n, d |-> 1, x |-> F - REMin])
 
